@@ -16,6 +16,7 @@
       PUTFILE t bytes                    -> [TI length]
       RELOAD t wall chk                  -> [TI status]
       SWEEP t wall chk k v.. j x..       -> [TI n; (TI status+4*big; TI hash) * n]
+      PROBE t wall chk                   -> [TI status+4*big; TI hash]  (load the file, flags-only hash)
       SLEEP t ms                         -> []                                      *)
 From Ferrous Require Import Base.Bytes Model.Resp Model.Types Model.Strings Model.Rdb.
 Open Scope Z_scope.
@@ -133,13 +134,23 @@ Definition api_xdel (ds : list db) (i : Z) (k : bytes) (id : sid) : option (list
   end.
 
 (** the file order of a loaded dataset: keys were inserted at the head *)
-Definition rev_db (d : db) : db := {| d_data := rev (d_data d); d_index := d_index d |}.
+Definition rev_db (d : db) : db := {| d_data := frev (d_data d); d_index := d_index d |}.
 
 (** the decidable guard of the round-trip theorem (Proofs/RdbFacts.v proves
     [rt_guard ...= true -> load (save ds) = ...]); used here only to decide whether the
     writer tie of ISAVE is expected to hold *)
 Definition lt32 (n : Z) : bool := n <? two32.
 Definition str_ok (b : bytes) : bool := lt32 (len b).
+(** a sorted set that the skip list can hold without duplicated nodes: re-inserting its
+    items one by one reproduces it *)
+Fixpoint zlist_eqb (a b : list (bytes * Z)) : bool :=
+  match a, b with
+  | [], [] => true
+  | (m, s) :: a', (m', s') :: b' => beq m m' && (s =? s') && zlist_eqb a' b'
+  | _, _ => false
+  end.
+Definition zs_canonical (z : list (bytes * Z)) : bool :=
+  zlist_eqb (fold_left (fun acc p => zs_insert (fst p) (snd p) acc) z []) z.
 Definition value_ok (v : value) : bool :=
   match v with
   | VStr b => str_ok b
@@ -147,7 +158,7 @@ Definition value_ok (v : value) : bool :=
                && match l with [] => false | h :: _ => negb (beq h marker) end
   | VSet s => lt32 (len s) && forallb str_ok s
   | VHash h => lt32 (len h) && forallb (fun p => str_ok (fst p) && str_ok (snd p)) h
-  | VZSet z => lt32 (len z) && forallb (fun p => str_ok (fst p)) z && negb (len z =? 0)
+  | VZSet z => lt32 (len z) && forallb (fun p => str_ok (fst p)) z && negb (len z =? 0) && zs_canonical z
   | VStream s => lt32 (stream_items (s_entries s)) && negb (len (s_entries s) =? 0)
                  && forallb (fun e => negb (len (snd e) =? 0)
                                       && forallb (fun p => str_ok (fst p) && str_ok (snd p)) (snd e)) (s_entries s)
@@ -315,6 +326,17 @@ Definition rdb_op (s : mst) (op : list tok) : list tok * mst :=
                 let c := 0 <? chk in
                 let outs := prefixes_out c t wall b (length b) [] ++ corrupt_out c t wall b abs xors [] b in
                 (TI (len outs / 2) :: outs, s)
+            end
+        | _ => ([TB (bs "BADOP")], s)
+        end
+      else if beq name (bs "PROBE") then
+        match rest with
+        | [TI wall; TI chk] =>
+            match m_disk s with
+            | None => ([TI 0; TI 0], s)
+            | Some b => match load (0 <? chk) t wall b with
+                        | (_, ds', _) => (variant_out (0 <? chk) t wall b, {| m_ds := ds'; m_disk := m_disk s |})
+                        end
             end
         | _ => ([TB (bs "BADOP")], s)
         end
